@@ -118,7 +118,9 @@ fn positive<B: FA, H: HA<B>>(k: &Kit<H>, idx: &[usize], flags: &Flags, obs: &mut
     // information only: does the opening carry exactly the minimal cover
     let cover = k.naive.minimal_cover(idx);
     let carried: usize = op.nodes.iter().map(|v| v.len()).sum();
-    obs.label(if carried == cover.len() { "nodes=minimal-cover" } else { "nodes=not-minimal" });
+    if carried != cover.len() {
+        obs.label("nodes=not-minimal-cover");
+    }
     let r = catch(|| MerkleTree::<H>::verify_batch(&root, idx, &proof)).map_err(|p| fail_panic("verify_batch", &p))?;
     ensure!(r.is_ok(), "verify_batch/honest-rejected", "{name}: honest batch opening for {idx:?} rejected: {r:?}");
     let gr = catch(|| proof.get_root(idx)).map_err(|p| fail_panic("get_root", &p))?;
@@ -148,7 +150,9 @@ fn positive<B: FA, H: HA<B>>(k: &Kit<H>, idx: &[usize], flags: &Flags, obs: &mut
     }
     // re-compression (last: F11 lives here)
     let sorted = idx.windows(2).all(|w| w[0] < w[1]);
-    obs.label(if sorted { "order=sorted" } else { "order=unsorted" });
+    if !sorted {
+        obs.label("order=unsorted");
+    }
     if !sorted && flags.skip_unsorted_repack {
         obs.label("excluded-known:from_paths-unsorted");
         return Ok(());
@@ -617,7 +621,8 @@ pub struct ExCase {
     pub depth: u8,
     /// bit i set = position i queried
     pub mask: u32,
-    /// 0 sorted, 1 reversed, 2 rotated by half, 3 odd ranks first
+    /// order id: 0 sorted, 1 reversed, 2 rotated by half, 3 odd ranks first (exhaustive-openings: bit
+    /// set of the order ids evaluated by the case)
     pub order: u8,
     pub equal_leaves: bool,
     /// mutation kind (negative enumerations only)
@@ -667,13 +672,39 @@ fn adjacency_label(idx: &[usize]) -> &'static str {
     }
 }
 
+/// one enumerated case = one (hasher, depth, subset, leaves); the order variants are evaluated inside
+/// the case (`order` = bit set of order ids). A failure that is not the from_paths-unsorted one is
+/// reported in preference, so that class cannot mask anything else in the same case.
 fn ex_positive<B: FA, H: HA<B>>(c: &ExCase, obs: &mut Obs) -> CheckResult {
     let k = kit::<B, H>(c.depth, c.equal_leaves, 0);
-    let idx = positions_of(c);
     obs.label(format!("depth={}", c.depth));
-    obs.label(adjacency_label(&idx));
     obs.nontrivial();
-    positive::<B, H>(&k, &idx, &Flags { skip_unsorted_repack: false, verify_singles: false }, obs)
+    let mut fails: Vec<Fail> = vec![];
+    let mut first = true;
+    for order in 0u8..4 {
+        if (c.order >> order) & 1 == 0 {
+            continue;
+        }
+        let oc = ExCase { order, ..c.clone() };
+        if !order_is_new(&oc) {
+            continue;
+        }
+        let idx = positions_of(&oc);
+        if first {
+            obs.label(adjacency_label(&idx));
+            first = false;
+        }
+        if let Err(f) = positive::<B, H>(&k, &idx, &Flags { skip_unsorted_repack: false, verify_singles: false }, obs) {
+            fails.push(f);
+        }
+    }
+    match fails.iter().position(|f| !f.key.starts_with("from_paths-unsorted/")) {
+        Some(i) => Err(fails.swap_remove(i)),
+        None => match fails.into_iter().next() {
+            Some(f) => Err(f),
+            None => Ok(()),
+        },
+    }
 }
 
 fn ex_negative<B: FA, H: HA<B>>(c: &ExCase, obs: &mut Obs) -> CheckResult {
@@ -910,10 +941,10 @@ pub fn run(run: &mut Run) {
     let pos_cases = ex_hashers.clone().into_iter().flat_map(move |hasher| {
         (1u8..=if hasher < 3 || thorough { 4 } else { 3 }).flat_map(move |depth| {
             masks(depth).flat_map(move |mask| {
-                [false, true].into_iter().flat_map(move |equal_leaves| {
-                    (0u8..4)
-                        .map(move |order| ExCase { hasher, depth, mask, order, equal_leaves, kind: String::new() })
-                        .filter(order_is_new)
+                [false, true].into_iter().map(move |equal_leaves| {
+                    // quick: sorted + one of the three other orders (rotating with the subset); thorough: all four
+                    let order = if thorough { 0b1111 } else { 1 | (2 << (mask % 3)) };
+                    ExCase { hasher, depth, mask, order, equal_leaves, kind: String::new() }
                 })
             })
         })
@@ -921,9 +952,9 @@ pub fn run(run: &mut Run) {
     run.enumerate(
         "exhaustive-openings",
         if thorough {
-            "all six hashers x depth 1..4 x every non-empty position subset x {sorted, reversed, rotated by half, odd ranks first} (distinct permutations only) x {distinct, all-equal} leaves: root = naive root; prove_batch leaves = committed leaves; verify_batch Ok; get_root = naive root; prove(i) = naive path for every i; into_paths = naive paths; from_paths(into_paths) equals prove_batch (structure and serialized nodes) or at least verifies; all cases non-trivial"
+            "all six hashers x depth 1..4 x every non-empty position subset x {distinct, all-equal} leaves, each in the orders {sorted, reversed, rotated by half, odd ranks first} (distinct permutations only; evaluated inside one case): root = naive root; prove_batch leaves = committed leaves; verify_batch Ok; get_root = naive root; prove(i) = naive path for every i; into_paths = naive paths; from_paths(into_paths) equals prove_batch (structure and serialized nodes) or at least verifies; all cases non-trivial"
         } else {
-            "Blake3_256, Sha3_256, Rp64_256 x depth 1..4 and Blake3_192, RpJive64_256, Rp62_248 x depth 1..3 (depth 4 in the thorough tier) x every non-empty position subset x {sorted, reversed, rotated by half, odd ranks first} (distinct permutations only) x {distinct, all-equal} leaves: root = naive root; prove_batch leaves = committed leaves; verify_batch Ok; get_root = naive root; prove(i) = naive path for every i; into_paths = naive paths; from_paths(into_paths) equals prove_batch (structure and serialized nodes) or at least verifies; all cases non-trivial"
+            "Blake3_256, Sha3_256, Rp64_256 x depth 1..4 and Blake3_192, RpJive64_256, Rp62_248 x depth 1..3 (depth 4 in the thorough tier) x every non-empty position subset x {distinct, all-equal} leaves, each in sorted order and one of {reversed, rotated by half, odd ranks first} (rotating with the subset; all four in the thorough tier): root = naive root; prove_batch leaves = committed leaves; verify_batch Ok; get_root = naive root; prove(i) = naive path for every i; into_paths = naive paths; from_paths(into_paths) equals prove_batch (structure and serialized nodes) or at least verifies; all cases non-trivial"
         },
         true,
         pos_cases,
@@ -952,7 +983,7 @@ pub fn run(run: &mut Run) {
         neg_small,
         |c: &ExCase, obs: &mut Obs| with_hasher!(c.hasher, ex_negative(c, obs)),
     );
-    let stride: u32 = if thorough { 1 } else { 29 };
+    let stride: u32 = if thorough { 1 } else { 113 };
     let neg_d4 = [0u8, 1, 2].into_iter().flat_map(move |hasher| {
         masks(4).filter(move |m| stride == 1 || m % stride == (hasher as u32 + 1) || m.count_ones() <= 2 || m.count_ones() >= 15).flat_map(move |mask| {
             [false, true].into_iter().flat_map(move |equal_leaves| {
@@ -972,7 +1003,7 @@ pub fn run(run: &mut Run) {
         if thorough {
             "Blake3_256, Sha3_256, Rp64_256 x depth 4 x every non-empty subset of the 16 positions (sorted order, distinct leaves; additionally odd-ranks-first order and all-equal leaves on every 4th subset) x every mutation kind at every place; same oracle as exhaustive-mutations-d1-3"
         } else {
-            "Blake3_256, Sha3_256, Rp64_256 x depth 4 x every 29th subset of the 16 positions plus all subsets of size <= 2 and >= 15 (sorted order, distinct leaves; additionally odd-ranks-first order and all-equal leaves on every 4th of those) x every mutation kind at every place; same oracle as exhaustive-mutations-d1-3 (the thorough tier visits every subset)"
+            "Blake3_256, Sha3_256, Rp64_256 x depth 4 x every 113th subset of the 16 positions plus all subsets of size <= 2 and >= 15 (sorted order, distinct leaves; additionally odd-ranks-first order and all-equal leaves on every 4th of those) x every mutation kind at every place; same oracle as exhaustive-mutations-d1-3 (the thorough tier visits every subset)"
         },
         thorough,
         neg_d4,
